@@ -898,3 +898,13 @@ Proof.
   destruct (Z.eqb_spec (kind_of_type t) T_MAP); [contradiction|].
   apply (scalar_interface_ok S t v Hwf Hv).
 Qed.
+
+(* schema_packed_okb is needed: a repeated numeric field declared [packed = false] is written unpacked (wire type 0),
+   and Interface() on its LIST node, which decides packed-ness by the element type alone, answers an error *)
+Example a_interface_unpacked_numeric_refuted :
+  let S_u : schema := [mk_mdesc [77] [mk_fdesc 2 [98] [98] (LRepeated false) (TScalar 5)]] in
+  let m_u : pmsg := [(2, VList false [VScalar 5 7; VScalar 5 8])] in
+  schema_okb S_u = true /\ schema_packed_okb S_u = false /\ wf_msg S_u [77] m_u = true /\
+  a_interface 5 all_fixes S_u (root_node [77] (encode_msg m_u)) = IErr /\
+  to_gval (VMsg m_u) = GMapI [(2, GList [GInt 7; GInt 8])].
+Proof. vm_compute. repeat split. Qed.
